@@ -8,6 +8,7 @@ import (
 	"verif/seq/c16"
 
 	_ "verif/harness/c01"
+	_ "verif/harness/c02"
 	_ "verif/harness/c03"
 	_ "verif/harness/c04"
 	_ "verif/harness/c05"
